@@ -23,9 +23,9 @@ Clauses(e) ==
         \* all three instants lie on the eye's time grid (`grid` points per slot): midway up to one grid step (never less than 2 % of a slot)
         (IF e.populated /\ Abs(e.topt_mid_ppm) > (IF 1000000 \div e.grid > 20000 THEN 1000000 \div e.grid ELSE 20000) THEN {"t_opt-midway"} ELSE {}) \cup
         (IF ~e.i_int \/ e.i < 0 \/ e.i >= e.sps THEN {"sampling-index-in-[0,sps)"} ELSE {}) \cup
-        \* ... and it is the index of the optimum instant (within the two samples by which rounding conventions differ), on eyes of >= 8 samples per slot
-        \* (plus one step of the eye grid when that is coarser than the signal's)
-        (IF e.sps >= 8 /\ Abs(e.i_off) > 2100 + (IF e.grid < e.sps THEN (1000 * e.sps) \div e.grid ELSE 0) THEN {"sampling-index-at-the-optimum-instant"} ELSE {})
+        \* ... and it is the index of the optimum instant (within the three samples by which rounding conventions differ: Eye.tla, IndexAtOptimum), on eyes of >= 8 samples per slot
+        \* (plus two steps of the eye grid when that is coarser than the signal's)
+        (IF e.sps >= 8 /\ Abs(e.i_off) > 3100 + (IF e.grid < e.sps THEN (2000 * e.sps) \div e.grid ELSE 0) THEN {"sampling-index-at-the-optimum-instant"} ELSE {})
     [] e.kind = "equiv" ->
         IF ~e.finite THEN {"finite-estimates"} ELSE
         (IF Abs(e.dmu0) > 1000 \/ Abs(e.dmu1) > 1000 \/ Abs(e.dthr) > 5000 THEN {"levels-equivariant"} ELSE {}) \cup
